@@ -3,6 +3,7 @@ package props
 import (
 	"fmt"
 	"reflect"
+	"strconv"
 	"strings"
 	"testing"
 
@@ -175,6 +176,12 @@ func (w *c01walk) walk(n *model.Node, in any, orig, dst reflect.Value, where str
 			case "maybe":
 				if !strings.Contains(s, "bad") {
 					w.walk(n.Elem, s, orig, dst, where)
+				}
+			case "ptrnum":
+				if v, err := strconv.Atoi(strings.TrimSpace(s)); err == nil {
+					w.walk(n.Elem, v, orig, dst, where)
+				} else {
+					w.walk(n.Elem, nil, orig, dst, where)
 				}
 			case "ptr": // a nil pointer result is no value at all
 				if strings.Contains(s, "none") {
